@@ -1,6 +1,6 @@
 (* Actual/PlacementActual.v — the quirk vector claimed for the current tree (hand-maintained; tied to the
    code by the correspondence check, and listed flag-by-flag in /verif/known.d/C18.json). *)
-From TL Require Import Lib.Base Model.Placement.
+From TL Require Import Lib.Base Model.Placement Model.PlacementSource.
 
 Definition placement_actual : pquirks := {|
   q_global_on_covered := true;
@@ -8,3 +8,7 @@ Definition placement_actual : pquirks := {|
   q_path_relative_to_cwd := true;
   q_allow_dict_unsupported := true;
   q_trailing_slash_depth := true |}.
+
+Definition placement_source_actual : squirks := {|
+  q_rules_toplevel_ignored := true;
+  q_rules_do_not_override_file := true |}.
